@@ -99,4 +99,13 @@ mod harness {
         if 'a' <= c && c <= 'z' { assert!(c.is_lowercase()); }
         if 'A' <= c && c <= 'Z' { assert!(!c.is_lowercase()); }
     }
+
+    #[kani::proof]
+    fn std_int_extras() {
+        let x: i32 = kani::any(); let y: i32 = kani::any();
+        let w = x as i64 - y as i64;
+        let want = if w > i32::MAX as i64 { i32::MAX } else if w < i32::MIN as i64 { i32::MIN } else { w as i32 };
+        assert!(x.saturating_sub(y) == want);
+        if x != i32::MIN { assert!(x.abs() as i64 == if x < 0 { -(x as i64) } else { x as i64 }); }
+    }
 }
